@@ -540,8 +540,8 @@ def check_C07(tier, seed, replay=None):
 
 def check_C11(tier, seed, replay=None):
     return ref_family_check("C11", tier, seed,
-                            [("procs", "", 500), ("perm", "noties", 1500), ("procs", "selector", 300), ("procs", "subpairs", 300), ("perm", "agg", 1000)],
-                            [("procs", "", 8000), ("perm", "noties", 30000), ("procs", "selector", 5000), ("procs", "agg", 4000), ("procs", "subpairs", 5000)],
+                            [("procs", "", 500), ("perm", "noties", 1500), ("procs", "selector", 300), ("procs", "subpairs", 300), ("perm", "agg", 1000), ("perm", "bin", 1500)],
+                            [("procs", "", 8000), ("perm", "noties", 30000), ("procs", "selector", 5000), ("procs", "agg", 4000), ("procs", "subpairs", 5000), ("perm", "bin", 20000)],
                             corr=corr_core("C11", ("sel", "bin", "tree")))
 
 
@@ -598,8 +598,8 @@ def check_C06(tier, seed, replay=None):
 
 
 def check_C18(tier, seed, replay=None):
-    return ref_family_check("C18", tier, seed, [("stream", "", 1500), ("stream", "func", 800), ("stream", "agg", 800), ("stream", "bin", 600)],
-                            [("stream", "", 30000), ("stream", "func", 15000), ("stream", "agg", 15000), ("stream", "bin", 15000), ("stream", "range", 8000)],
+    return ref_family_check("C18", tier, seed, [("stream", "", 1500), ("stream", "func", 800), ("stream", "agg", 800), ("stream", "bin", 600), ("stream", "hist", 300)],
+                            [("stream", "", 30000), ("stream", "func", 15000), ("stream", "agg", 15000), ("stream", "bin", 15000), ("stream", "range", 8000), ("stream", "hist", 5000)],
                             corr=corr_core("C18", ("sel", "bin", "func")))
 
 
